@@ -931,6 +931,7 @@ def run(rep, ctx):
     with rep.guard("R01.15"):
         from .. import handlers
         handlers.check(rep, M, "R01.15", M.reachable([GC]))
+        handlers.check_raises(rep, M, "R01.15", M.reachable([GC]), GC.split(".")[-1])
     rep.rule("R01.16", "the geometry helpers the clustering rests on (get_distances, displacement-tensor wrapper, get_radii, bond clustering) satisfy their own rules (shared with C10/C19)")
     with rep.guard("R01.16"):
         from . import shared as _sh
